@@ -100,4 +100,57 @@ mod verif_nx_lex {
         println!("NX lex_directives: {} cases", n);
         assert!(n > 600, "enumeration ran");
     }
+    // nested directive expressions ({$if ...} may contain comments, strings and further directives): the only recursion in
+    // the scanner (find_directive_expr_end <-> parse_directive_expr).  Every sequence of <= 5 items is scanned under a watchdog.
+    #[test]
+    fn verif_nx_lex_nested_directives() {
+        let alpha = ["{$if ", "{$ifdef ", "{$elseif ", "{$endif}", "(*$if ", "{", "}", "(*", "*)", "'", "//", "\n", "x ", "defined(A)", "{$"];
+        let mut n = 0u64;
+        let mut idx: Vec<usize> = Vec::new();
+        loop {
+            let text: String = idx.iter().map(|&i| alpha[i]).collect();
+            let owned = text.clone();
+            let (tx, rx) = std::sync::mpsc::channel();
+            std::thread::spawn(move || {
+                let r = std::panic::catch_unwind(|| {
+                    let toks = lex_complete(&owned);
+                    let joined: String = toks.iter().map(|t| t.get_str()).collect();
+                    let kinds_ok = toks.iter().all(|t| {
+                        let c = t.get_content();
+                        let is_dir = matches!(t.get_token_type(), TT::CompilerDirective | TT::ConditionalDirective(_));
+                        (c.starts_with("{$") || c.starts_with("(*$")) == is_dir
+                    });
+                    (joined == owned, kinds_ok, toks.len())
+                });
+                let _ = tx.send(r.ok());
+            });
+            match rx.recv_timeout(std::time::Duration::from_secs(5)) {
+                Ok(Some((lossless, kinds_ok, _))) => {
+                    assert!(lossless, "OB lexnx/nested_lossless: tokens concatenate back to the input\n input={:?}", text);
+                    assert!(kinds_ok, "OB lexnx/nested_directive_kinds: exactly the tokens that start with a directive opener are directives\n input={:?}", text);
+                }
+                Ok(None) => panic!("OB lexnx/nested_returns: scanning never aborts\n input={:?}", text),
+                Err(_) => panic!("OB lexnx/nested_terminates: scanning nested directive expressions terminates\n input={:?}", text),
+            }
+            n += 1;
+            let mut k = idx.len();
+            let mut done = false;
+            loop {
+                if k == 0 {
+                    if idx.len() == 5 { done = true; } else { idx = vec![0; idx.len() + 1]; }
+                    break;
+                }
+                k -= 1;
+                if idx[k] + 1 < alpha.len() {
+                    idx[k] += 1;
+                    for j in k + 1..idx.len() { idx[j] = 0; }
+                    break;
+                }
+            }
+            if done { break; }
+        }
+        println!("NX lex_nested_directives: {} cases", n);
+        assert!(n > 800_000, "enumeration ran");
+    }
+
 }
